@@ -99,6 +99,9 @@ def legacy_layout(rng, repo, kind=None):
     expect[dimg] = {a[1] for a in arts}
     if kind == "accurate":
         L.add_fallback(dimg, rds)
+    elif kind == "accurate-dup":
+        # accurate, but one referrer is listed twice (a tool appended without looking)
+        L.add_fallback(dimg, rds + [rds[0]])
     elif kind == "stale":
         # lists a referrer whose manifest is gone, and misses nothing else
         ghost = {"mediaType": MT_OCI_M, "digest": dg("sha256", b"gone"), "size": 4, "artifactType": "x"}
